@@ -55,19 +55,26 @@ def r1(ctx):
             if (got & 0xF) != (want & 0xF):
                 bad.append((f"{'WB'[c]},{g.name(d)}", f"mask[{'White' if c == 0 else 'Black'}][{g.name(d)}] keeps rights {got & 0xF:04b}, definition keeps {want & 0xF:04b} (bit = side + 2*colour)"))
     ctx.bulk("CASTLE_RIGHTS_PER_SQ", 128, bad, "castling-right mask differs from its definition", sample={"a1/White": bin(raw[64 * g.color[0] + g.sq[(0, 0)]] & 0xF)})
-    # remove_for_sq applies exactly that mask
-    lv = eng.tabulate(CR + "CastleRights::remove_for_sq")
-    rb = P.body(CR + "CastleRights::remove_for_sq")
-    prm = [("param", i, rb["locals"][i + 1].get("n", f"arg{i}")) for i in range(rb["argc"])]
-    slf = prm[0]
-    ok = False
-    if len(lv) == 1 and len(prm) == 3:
-        v = eng.freeze(lv[0].state, lv[0].ext.get(slf, ("obj", slf)))
-        new = T.get_path(v, (("f", 0, "0", None),))
-        tab = ("field", ("index", ("index", ("obj", ("static", key)), ("cast", "usize", ("discr", prm[1]))), ("cast", "usize", ("discr", prm[2]))), "0")
-        ok = canon(new) == canon(eng.binop("BitAnd", ("field", ("obj", slf), "0"), tab))
-    ctx.ob("remove_for_sq", ok, "remove_for_sq does not compute rights &= CASTLE_RIGHTS_PER_SQ[colour][square]", site=P.body(CR + "CastleRights::remove_for_sq").get("def_span"),
-           sample="self.0 &= TABLE[turn][end].0")
+    # whoever applies the per-square masks (a `&mut self` method, a by-value method returning Self, ...) computes rights & MASK[colour][square]
+    import json as _json
+    appliers = sorted(k for k, b in P.fns.items() if b["crate"] == "chess_movegen" and "::{" not in k and k != M.KEY and ('"static": "%s"' % key) in _json.dumps(b["blocks"]))
+    for ak in appliers:
+        lv = eng.tabulate(ak)
+        rb = P.body(ak)
+        prm = [("param", i, rb["locals"][i + 1].get("n", f"arg{i}")) for i in range(rb["argc"])]
+        ok = False
+        if len(lv) == 1 and len(prm) == 3:
+            slf = prm[0]
+            by_ref = rb["locals"][1]["ty"].startswith("&")
+            old_w = ("field", ("obj", slf), "0") if by_ref else ("field", slf, "0")
+            v = eng.freeze(lv[0].state, lv[0].ext.get(slf, ("obj", slf))) if by_ref else lv[0].ret
+            try:
+                new = T.get_path(v, (("f", 0, "0", None),))
+            except Exception:
+                new = ("unreadable",)
+            tab = ("field", ("index", ("index", ("obj", ("static", key)), ("cast", "usize", ("discr", prm[1]))), ("cast", "usize", ("discr", prm[2]))), "0")
+            ok = canon(new) == canon(eng.binop("BitAnd", old_w, tab))
+        ctx.ob(f"per-square mask applied by {T.short(ak)}", ok, f"{ak} does not compute rights & CASTLE_RIGHTS_PER_SQ[colour][square]", site=rb.get("def_span"), sample="rights & TABLE[colour][square].0")
 
 
 def const_u64s(P, name):
@@ -171,9 +178,19 @@ def r2(ctx):
             a = c[2]
             if c[1] == M.XOR:
                 got.append((describe_color(a[1], p), describe_piece(a[2]), describe_diff(a[3], p, eng)))
+        base_n = 0
+        for rr in p.rights:
+            if rr[0] == "base":
+                base_n += 1
+            elif rr[0] == "mask":
+                ct = rr[1]
+                col = ({W: "White", B: "Black"}.get(ct[1], "?") if T.is_const(ct) else describe_color(ct[1] if ct[0] == "discr" else ct, p))
+                sq = rr[2][1] if rr[2][0] == "discr" else rr[2]
+                rights.append((col, "dest" if sq == ("field", ("param", 1, "a1"), "dest") else "source" if sq == ("field", ("param", 1, "a1"), "source") else "?"))
             else:
-                sq = a[2]
-                rights.append((describe_color(a[1], p), "dest" if sq == ("field", ("param", 1, "a1"), "dest") else "source" if sq == ("field", ("param", 1, "a1"), "source") else "?"))
+                rights.append(("?", T.show(rr[1])[:60]))
+        if base_n != 1:
+            rights.append(("?", f"the mover's own rights appear {base_n} times"))
         label = f"{me} {kind} cap={p.captured} promo={p.promo} double={double} ep={p.ep} castles={castles}/{p.side}"
         key = f"toggles[{label}]#{n}"
         ctx.ob(key, sorted(map(str, got)) == sorted(map(str, exp)), f"make-move ({label}) toggles {got}; the rules prescribe {exp}", site=site,
